@@ -56,6 +56,11 @@ class RecordingRandom(random.Random):
         self.log.append(("normal", mu, sigma, v))
         return v
 
+    def random(self):
+        v = super().random()
+        self.log.append(("uniform", None, None, v))
+        return v
+
     def choices(self, population, weights=None, *, cum_weights=None, k=1):
         v = super().choices(population, weights, cum_weights=cum_weights, k=k)
         self.log.append(("choices", list(population), None if weights is None else list(weights), v))
@@ -368,7 +373,37 @@ def eval_fcn(res, world, rng, share):
             draws = [x for x in log if x[0] == "normal"]
             check_fcn_orders(res, a, picked, orders, draws, name, wit)
         else:
-            res.count("share_choice_not_observable(not judged)")
+            # the choice was not made through random.choices: judge it from the uniform draws the agent took.
+            # A market is picked with probability proportional to its recent traded volume, i.e. for a draw u the
+            # pick is the first market whose cumulative weight exceeds u * total.
+            us = [x[3] for x in log if x[0] == "uniform"]
+            if not us or not mk_ids:
+                res.count("share_choice_not_observable(not judged)")
+                return
+            t = accm[0].get_time()
+            w = []
+            for m in accm:
+                t0 = max(0, t - a.time_window_size)
+                w.append(float(sum(m.get_executed_volumes(range(t0, t + 1)))) + 1e-10)
+            tot = sum(w)
+            picks = set()
+            for u in us:
+                acc_w = 0.0
+                pick = accm[-1]
+                for m, wi in zip(accm, w):
+                    acc_w += wi
+                    if u * tot < acc_w:
+                        pick = m
+                        break
+                picks.add(pick.market_id)
+            res.count("class/share_choice_checked")
+            if not (mk_ids <= picks):
+                res.violation("share", "market-choice-not-proportional-to-recent-traded-volumes",
+                              dict(wit, ordered_on=sorted(mk_ids), picks_by_draw=sorted(picks), weights=w, draws=us[:4]))
+                return
+            picked = [m for m in accm if m.market_id in mk_ids][0]
+            draws = [x for x in log if x[0] == "normal"]
+            check_fcn_orders(res, a, picked, orders, draws, name, wit)
         return
     # plain FCN: one decision per accessible market, in the order of `markets`
     normals = [x for x in log if x[0] == "normal"]
